@@ -4,6 +4,7 @@ import (
 	"bytes"
 	"encoding/binary"
 	"errors"
+	"fmt"
 	"io"
 
 	"golang.org/x/exp/constraints"
@@ -41,8 +42,17 @@ func ReadBasicTypeLE[T BasicType](buf *bytes.Buffer) (T, error) {
 	return v, err
 }
 
+// writeLen writes n as a length or count prefix of type T and refuses a value
+// that T cannot represent instead of silently wrapping it around.
+func writeLen[T constraints.Unsigned](buf *bytes.Buffer, order binary.ByteOrder, n int) error {
+	if uint64(n) > uint64(^T(0)) {
+		return fmt.Errorf("length %d does not fit its %d-byte prefix", n, binary.Size(T(0)))
+	}
+	return binary.Write(buf, order, T(n))
+}
+
 func WriteBasicTypeList[T constraints.Unsigned, K BasicType](buf *bytes.Buffer, values []K) error {
-	if err := binary.Write(buf, binary.BigEndian, T(len(values))); err != nil {
+	if err := writeLen[T](buf, binary.BigEndian, len(values)); err != nil {
 		return err
 	}
 	for _, s := range values {
@@ -54,7 +64,7 @@ func WriteBasicTypeList[T constraints.Unsigned, K BasicType](buf *bytes.Buffer, 
 }
 
 func WriteBasicTypeListLE[T constraints.Unsigned, K BasicType](buf *bytes.Buffer, values []K) error {
-	if err := binary.Write(buf, binary.LittleEndian, T(len(values))); err != nil {
+	if err := writeLen[T](buf, binary.LittleEndian, len(values)); err != nil {
 		return err
 	}
 	for _, s := range values {
@@ -109,7 +119,7 @@ func ReadBasicTypeListLE[T constraints.Unsigned, K BasicType](buf *bytes.Buffer)
 // ----------------------------
 
 func WriteString[T constraints.Unsigned](buf *bytes.Buffer, s string) error {
-	if err := binary.Write(buf, binary.BigEndian, T(len(s))); err != nil {
+	if err := writeLen[T](buf, binary.BigEndian, len(s)); err != nil {
 		return err
 	}
 	if _, err := buf.WriteString(s); err != nil {
@@ -119,7 +129,7 @@ func WriteString[T constraints.Unsigned](buf *bytes.Buffer, s string) error {
 }
 
 func WriteStringLE[T constraints.Unsigned](buf *bytes.Buffer, s string) error {
-	if err := binary.Write(buf, binary.LittleEndian, T(len(s))); err != nil {
+	if err := writeLen[T](buf, binary.LittleEndian, len(s)); err != nil {
 		return err
 	}
 	if _, err := buf.WriteString(s); err != nil {
@@ -193,7 +203,7 @@ func WriteFixedStringList[T constraints.Unsigned](buf *bytes.Buffer, values []st
 }
 
 func WriteFixedStringListWithPadding[T constraints.Unsigned](buf *bytes.Buffer, values []string, fixedLen int, padChar rune, padLeft bool) error {
-	if err := binary.Write(buf, binary.BigEndian, T(len(values))); err != nil {
+	if err := writeLen[T](buf, binary.BigEndian, len(values)); err != nil {
 		return err
 	}
 
@@ -211,7 +221,7 @@ func WriteFixedStringListLE[T constraints.Unsigned](buf *bytes.Buffer, values []
 	return WriteFixedStringListWithPaddingLE[T](buf, values, fixedLen, ' ', false)
 }
 func WriteFixedStringListWithPaddingLE[T constraints.Unsigned](buf *bytes.Buffer, values []string, fixedLen int, padChar rune, padLeft bool) error {
-	if err := binary.Write(buf, binary.LittleEndian, T(len(values))); err != nil {
+	if err := writeLen[T](buf, binary.LittleEndian, len(values)); err != nil {
 		return err
 	}
 
@@ -295,13 +305,13 @@ func ReadFixedStringListTrimPaddingLE[T constraints.Unsigned](buf *bytes.Buffer,
 // K: type used for each string's length prefix (e.g., uint8, uint16, uint32)
 func WriteStringListLE[T constraints.Unsigned, K constraints.Unsigned](buf *bytes.Buffer, values []string) error {
 	// Write the list length prefix
-	if err := binary.Write(buf, binary.LittleEndian, T(len(values))); err != nil {
+	if err := writeLen[T](buf, binary.LittleEndian, len(values)); err != nil {
 		return err
 	}
 
 	// Write each string with its own length prefix
 	for _, s := range values {
-		if err := binary.Write(buf, binary.LittleEndian, K(len(s))); err != nil {
+		if err := writeLen[K](buf, binary.LittleEndian, len(s)); err != nil {
 			return err
 		}
 		buf.WriteString(s)
@@ -311,13 +321,13 @@ func WriteStringListLE[T constraints.Unsigned, K constraints.Unsigned](buf *byte
 
 func WriteStringList[T constraints.Unsigned, K constraints.Unsigned](buf *bytes.Buffer, values []string) error {
 	// Write the list length prefix
-	if err := binary.Write(buf, binary.BigEndian, T(len(values))); err != nil {
+	if err := writeLen[T](buf, binary.BigEndian, len(values)); err != nil {
 		return err
 	}
 
 	// Write each string with its own length prefix
 	for _, s := range values {
-		if err := binary.Write(buf, binary.BigEndian, K(len(s))); err != nil {
+		if err := writeLen[K](buf, binary.BigEndian, len(s)); err != nil {
 			return err
 		}
 		buf.WriteString(s)
@@ -383,7 +393,7 @@ func ReadStringList[T constraints.Unsigned, K constraints.Unsigned](buf *bytes.B
 // Object
 func WriteObjectList[T constraints.Unsigned, K BinaryCodec](buf *bytes.Buffer, values []K) error {
 	// Write the list length prefix
-	if err := binary.Write(buf, binary.BigEndian, T(len(values))); err != nil {
+	if err := writeLen[T](buf, binary.BigEndian, len(values)); err != nil {
 		return err
 	}
 
@@ -417,7 +427,7 @@ func ReadObjectList[T constraints.Unsigned, K BinaryCodec](buf *bytes.Buffer, ne
 // Object
 func WriteObjectListLE[T constraints.Unsigned, K BinaryCodec](buf *bytes.Buffer, values []K) error {
 	// Write the list length prefix
-	if err := binary.Write(buf, binary.LittleEndian, T(len(values))); err != nil {
+	if err := writeLen[T](buf, binary.LittleEndian, len(values)); err != nil {
 		return err
 	}
 
